@@ -528,3 +528,126 @@ if __name__ == "__main__":
     except Unsupported as e:
         sys.stderr.write("py2coq: %s\n" % e)
         sys.exit(2)
+
+
+def state_inventory(source_path, roots):
+    """Inventory of state that outlives one call on the code reachable from `roots` (module-level functions of the file, followed
+    through calls by name): (a) module-level names bound to a mutable object ({} [] set() dict() list() OrderedDict() defaultdict()
+    WeakValueDictionary() ...) that the code reads or writes; (b) writes to attributes / __dict__ of a PARAMETER of a reached
+    function (a memo kept on the handle or on whatever the caller passed).  Item assignment on a local object (the
+    `s["converted_max"] = ...` memo on the chunk's own Statistics object) is not listed.  -> {"module": {name: [function...]},
+    "param_attr_writes": ["function: target"...], "reached": [...]}"""
+    tree = ast.parse(open(source_path).read(), source_path)
+    funcs = {n.name: n for n in tree.body if isinstance(n, ast.FunctionDef)}
+    mutable = {}
+    for n in tree.body:
+        if isinstance(n, ast.Assign) and len(n.targets) == 1 and isinstance(n.targets[0], ast.Name):
+            v = n.value
+            if isinstance(v, (ast.Dict, ast.List, ast.Set, ast.DictComp, ast.ListComp, ast.SetComp)) or (
+                    isinstance(v, ast.Call) and isinstance(v.func, (ast.Name, ast.Attribute)) and
+                    (v.func.id if isinstance(v.func, ast.Name) else v.func.attr) in
+                    ("dict", "list", "set", "OrderedDict", "defaultdict", "WeakValueDictionary", "WeakKeyDictionary", "deque", "Counter")):
+                mutable[n.targets[0].id] = n.lineno
+    reached, todo = [], [r for r in roots if r in funcs]
+    while todo:
+        f = todo.pop()
+        if f in reached:
+            continue
+        reached.append(f)
+        for n in ast.walk(funcs[f]):
+            if isinstance(n, ast.Call) and isinstance(n.func, ast.Name) and n.func.id in funcs:
+                todo.append(n.func.id)
+    mod, pw = {}, []
+    for f in reached:
+        d = funcs[f]
+        params = {a.arg for a in d.args.args}
+        local = {t.id for n in ast.walk(d) if isinstance(n, ast.Assign) for t in n.targets if isinstance(t, ast.Name)}
+        for n in ast.walk(d):
+            if isinstance(n, ast.Name) and n.id in mutable and n.id not in params and n.id not in local:
+                mod.setdefault(n.id, [])
+                if f not in mod[n.id]:
+                    mod[n.id].append(f)
+            tgt = None
+            if isinstance(n, (ast.Assign, ast.AugAssign)):
+                for t in (n.targets if isinstance(n, ast.Assign) else [n.target]):
+                    if isinstance(t, ast.Attribute) and isinstance(t.value, ast.Name) and t.value.id in params:
+                        tgt = "%s.%s = ..." % (t.value.id, t.attr)
+                    if isinstance(t, ast.Subscript) and isinstance(t.value, ast.Attribute) and t.value.attr == "__dict__" \
+                            and isinstance(t.value.value, ast.Name) and t.value.value.id in params:
+                        tgt = "%s.__dict__[...] = ..." % t.value.value.id
+            if isinstance(n, ast.Call):
+                fn = n.func
+                if isinstance(fn, ast.Name) and fn.id == "setattr" and n.args and isinstance(n.args[0], ast.Name) and n.args[0].id in params:
+                    tgt = "setattr(%s, ...)" % n.args[0].id
+                if isinstance(fn, ast.Attribute) and fn.attr in ("setdefault", "update", "__setitem__") and isinstance(fn.value, ast.Attribute) \
+                        and fn.value.attr == "__dict__" and isinstance(fn.value.value, ast.Name) and fn.value.value.id in params:
+                    tgt = "%s.__dict__.%s(...)" % (fn.value.value.id, fn.attr)
+            if tgt and "%s: %s" % (f, tgt) not in pw:
+                pw.append("%s: %s" % (f, tgt))
+    return {"module": mod, "param_attr_writes": pw, "reached": sorted(reached)}
+
+
+def dirtext_decoders(api_path, core_path):
+    """Inventory: what each of the three parsers of partition-directory text applies to the raw text BEFORE the typing functions
+    (val_to_num / val_from_meta): api._path_to_cats (labels), core.read_row_group (the codes / cells of the partition columns),
+    api.filter_out_cats (what a filter constant is compared with).  A decoding (percent-unquoting, stripping, case folding ...) present
+    in one and absent in another makes a condition on the label a dataset reports miss exactly its rows.
+    -> {"labels": [...], "cells": [...], "filter": [...]} (names of the functions / methods the text variable is reassigned through,
+    in order), or a value None for a parser whose text variable was not found (fail closed: nothing is claimed for it)."""
+    TYPING = {"val_to_num", "val_from_meta", "_val_to_num"}
+
+    def fn(tree, name):
+        for n in ast.walk(tree):
+            if isinstance(n, ast.FunctionDef) and n.name == name:
+                return n
+        return None
+
+    def reassigns(func, var):
+        out = []
+        for n in ast.walk(func):
+            if isinstance(n, ast.Assign) and len(n.targets) == 1 and isinstance(n.targets[0], ast.Name) and n.targets[0].id == var \
+                    and isinstance(n.value, ast.Call):
+                uses = any(isinstance(x, ast.Name) and x.id == var for x in ast.walk(n.value))
+                f = n.value.func
+                nm = f.id if isinstance(f, ast.Name) else (f.attr if isinstance(f, ast.Attribute) else "?")
+                if uses and nm not in TYPING:
+                    out.append((n.lineno, nm))
+            # a conditional expression around the call: val = f(val) if ... else val
+            if isinstance(n, ast.Assign) and len(n.targets) == 1 and isinstance(n.targets[0], ast.Name) and n.targets[0].id == var \
+                    and isinstance(n.value, ast.IfExp):
+                for c in (n.value.body, n.value.orelse):
+                    if isinstance(c, ast.Call):
+                        f = c.func
+                        nm = f.id if isinstance(f, ast.Name) else (f.attr if isinstance(f, ast.Attribute) else "?")
+                        if nm not in TYPING:
+                            out.append((n.lineno, nm))
+        return [nm for _, nm in sorted(out)]
+
+    def loop_var(func, iter_name, idx):
+        for n in ast.walk(func):
+            if isinstance(n, ast.For) and isinstance(n.iter, ast.Name) and n.iter.id == iter_name and isinstance(n.target, ast.Tuple) \
+                    and len(n.target.elts) == 2 and isinstance(n.target.elts[idx], ast.Name):
+                return n.target.elts[idx].id
+        return None
+
+    api_t = ast.parse(open(api_path).read(), api_path)
+    core_t = ast.parse(open(core_path).read(), core_path)
+    res = {"labels": None, "cells": None, "filter": None}
+    f = fn(api_t, "_path_to_cats")
+    if f is not None:
+        v = loop_var(f, "hivehits", 1)
+        if v:
+            res["labels"] = reassigns(f, v)
+    f = fn(api_t, "filter_out_cats")
+    if f is not None:
+        v = loop_var(f, "pairs", 1)
+        if v:
+            res["filter"] = reassigns(f, v)
+    f = fn(core_t, "read_row_group")
+    if f is not None:
+        for n in ast.walk(f):
+            if isinstance(n, ast.Assign) and len(n.targets) == 1 and isinstance(n.targets[0], ast.Tuple) and len(n.targets[0].elts) == 2 \
+                    and all(isinstance(e, ast.Name) for e in n.targets[0].elts) and isinstance(n.value, ast.Subscript):
+                res["cells"] = reassigns(f, n.targets[0].elts[1].id)
+                break
+    return res
